@@ -18,3 +18,7 @@ open RawPanelVerif.C17
 #print axioms gfx_holds
 #print axioms short_data_no_panic
 #print axioms short_mono_png_black_counterexample
+#print axioms rwp_uncovered_black
+#print axioms export_of_long
+#print axioms huge_size_panics_counterexample
+#print axioms sliceGray_content
